@@ -227,7 +227,25 @@ def _hangs_in_fresh_process(text):
 def check_case(case, ctx):
     text = case['text']
     if case.get('embedded'):
-        return check_embedded(text, case.get('style', 'auto'))
+        # the embedded form gets the same watchdog (collection of the whole module may hang on the doubtful docstring)
+        old = signal.signal(signal.SIGALRM, _on_alarm)
+        signal.alarm(30)
+        try:
+            return check_embedded(text, case.get('style', 'auto'))
+        except _Timeout:
+            if ctx is not None:
+                ctx.notes['slow_cases'] += 1
+            if _hangs_in_fresh_process(text):
+                v = Violation('hang', 'collecting a module that holds this docstring does not finish (120 s in a fresh process)\ntext={!r}'.format(text))
+                if ctx is not None and ctx.jobname.startswith('hyp'):
+                    raise engine.Abort(v, {'text': text, 'via': 'watchdog'})
+                raise v
+            if ctx is not None:
+                ctx.notes['slow_inconclusive'] += 1
+            return 'slow'
+        finally:
+            signal.alarm(0)
+            signal.signal(signal.SIGALRM, old)
     return guarded_oracle(text, ctx)
 
 
